@@ -308,6 +308,12 @@ def c06c_task(arg):
             gs = init_with_rng(g, None, eps=e)
             jax.block_until_ready(fn(gs))
             judge("rollout-jit", e, _expected_executions(slots, sup.name, e, M))
+        # the full-trajectory rollout (lax.scan over run) must execute every scheduled tick once as well
+        e = 0
+        del trace[:]
+        gs = init_with_rng(g, None, eps=e)
+        jax.block_until_ready(jax.jit(lambda a: g.rollout(a, carry_only=False))(gs))
+        judge("rollout-full-jit", e, _expected_executions(slots, sup.name, e, M))
         if arg.get("eager", True):
             e = len(eps_py) - 1
             gs = init_with_rng(g, None, eps=e)
